@@ -386,8 +386,10 @@ def check(ctx):
     if sorter and sorter[1] == 'method':
         fn = sorter[2]
         rets = [r for r in ast.walk(fn) if isinstance(r, ast.Return)]
-        if len(rets) == 1 and isinstance(rets[0].value, ast.Call) and ast.unparse(rets[0].value.func) == 'sorted':
-            cl = rets[0].value
+        from ..norm import single_defs as _sd5
+        rv5 = subst(rets[0].value, _sd5(fn)) if len(rets) == 1 and rets[0].value is not None else None      # `by_priority = sorted(...); ...; return by_priority`
+        if rv5 is not None and isinstance(rv5, ast.Call) and ast.unparse(rv5.func) == 'sorted':
+            cl = rv5
             kws = {k.arg: k.value for k in cl.keywords}
             rev = kws.get('reverse')
             if len(cl.args) == 1 and ast.unparse(cl.args[0]) == fn.args.args[0].arg and 'key' in kws \
